@@ -51,6 +51,8 @@ func (g *gen) clientHist(depth int) {
 			)
 		}
 		al = append(al,
+			// a header-only response right after one with attributes: the reader's Message object is reused
+			func(now, hn *int) { g.emit("CL deliver %s", showHex(wire(0x0101, ids[0], nil))) },
 			func(now, hn *int) { g.emit("CL failwrite %s", showHex(ids[0])) },
 			func(now, hn *int) { g.emit("CL deliver %s", showHex([]byte{0, 1, 2, 3, 4, 5})) },
 			func(now, hn *int) { *now += 100; g.emit("CL tick %d", *now) },
@@ -122,6 +124,17 @@ func (g *gen) clientHist(depth int) {
 				d := respFor(id, k)
 				if g.r.chance(1, 10) { // longer than the reader's 1024-byte buffer
 					d = reqFor(id, 1000+g.r.intn(100), 7)
+				}
+				if g.r.chance(1, 5) { // header only (the reader reuses one Message for every datagram)
+					d = wire(0x0101, id, nil)
+				}
+				if g.r.chance(1, 12) { // Do: the response arrives while the request is being written
+					if len(d) > 900 {
+						d = respFor(id, k)
+					}
+					g.emit("CL do %s %s %s %d", showHex(id), showHex(reqFor(id, 20+g.r.intn(100), byte(k))), showHex(d), hn)
+					hn++
+					break
 				}
 				g.emit("CL deliver %s", showHex(d))
 			case op == 10:
